@@ -244,6 +244,7 @@ def replay(s, data):
 
 
 def run(s):
+    K.hostile_callers(s)
     K.suite_workload(s)
     K.fixtures_workload(s)
     K.collision_cases(s)
